@@ -290,8 +290,8 @@ def main(tier, t0):
         'on the extracted constants: Z, A\', B\' are the RFC values in position; chains raise to (q-3)/4 and (q^2-9)/16; the candidate root is u^a v^b with '
         'cand^2 v/u a 2nd / 8th root of unity; the G2 multiplier tables are complete for the 4th roots / primitive 8th roots, so a trial always matches '
         '(terminal panic infeasible); each returned affine point is x0 or x1 = xi t^2 x0 under a path condition that says y^2 = g(x); x0 is tried first; '
-        'exceptional denominator gives A\'xi; y is negated iff sgn0(y_affine) != sgn0(t). NOT decided: the numerator/denominator polynomials of g as values '
-        '(field additions are opaque atoms here).',
+        'exceptional denominator gives A\'xi; y is negated iff sgn0(y_affine) != sgn0(t); the helper\'s rational functions x0 = B(1+s)/(-A s), '
+        'g(x0) = (N^3 + A N D^2 + B D^3)/D^3 are decided in the sum-of-monomials domain.',
         ['rustc MIR + const evaluation', 'Fq/Fq2 operations meet their contracts; sgn0/negate_if contracts (C18)', 'Euler criterion / structure of roots of unity in Fq2'],
         ['monomial (exponent-vector) reasoning only; sums are opaque'])
 
